@@ -213,6 +213,9 @@ func New(p *core.Plan, res *core.Result, keepLog bool) *World {
 	w.Net.Jitter = p.C("jitter", 3_000_000)
 	w.Net.Handler = w.handle
 	w.Arena = arena.New(arena.Layout{Spare: int(p.C("spare", 0)), Poison: byte(p.C("poison", 0xA5)), Guard: byte(p.C("guard", 0x5C))})
+	// REUSE fault: argument buffers go back to a pool after every call, are scrambled and reused
+	w.Arena.Pool = p.C("bufreuse", 0) == 1
+	w.Arena.Scramble = byte(p.C("scramble", 0xEE))
 	w.Cache = NewRecCache()
 	w.Attester = type3.NewRateLimitedAttester(w.Cache)
 	return w
